@@ -2197,6 +2197,9 @@ XSLTEngineImpl::cloneToResultTree(
             break;
 
         case XalanNode::CDATA_SECTION_NODE:
+            if (overrideStrip == true ||
+                m_executionContext->shouldStripSourceNode(
+                    static_cast<const XalanText&>(node)) == false)
             {
                 const XalanDOMString&   data = node.getNodeValue();
 
